@@ -88,7 +88,7 @@ def run(ctx, report: Report) -> None:
     r1.instance({'escaping_events': len(esc), 'reachable_functions': len(reach)}, key='summary', nontrivial=False)
 
     # ---- R3 ------------------------------------------------------------------------------------------------
-    r3 = report.rule('C06-R3', 'custom-selector recursion is cut', floor=1)
+    r3 = report.rule('C06-R3', 'custom-selector recursion is cut', floor=9)
     pmod, cfn = src.func('css_parser.CSSParser.parse_pseudo_class_custom')
     rec = [c for c in ast.walk(cfn) if isinstance(c, ast.Call) and src.resolve_class_ref(pmod, c.func) == 'css_parser.CSSParser']
     if len(rec) != 1:
@@ -156,7 +156,7 @@ def run(ctx, report: Report) -> None:
         raise AnalysisError('fewer than three CSSParser(...) constructions found')
 
     # ---- R4 ------------------------------------------------------------------------------------------------
-    r4 = report.rule('C06-R4', 'arguments of the memoised compiler are hashable', floor=4)
+    r4 = report.rule('C06-R4', 'arguments of the memoised compiler are hashable', floor=9)
     from .sem import compile_table
     compile_table(ctx, r4, None)
 
